@@ -229,6 +229,45 @@ func runC12(c *Ctx) {
 				}
 			}
 			rep.Eval(fmt.Sprintf("gmtls-suite-table/%04x/len=%s", suite, gcmLenCls(len(pl))))
+			// the receiving side of the same suite: the nonce that authenticates a record is the one the record CARRIES
+			// (implicit IV || explicit 8 bytes), so every bit of the explicit part is authenticated like every other input;
+			// and a record the reference seals under a chosen explicit nonce opens, whatever the receiver's own counter says
+			sealed := rs.Seal(23, pl, nil, 0) // reference record at the sender's next sequence number (3)
+			mk := func() *gmtls.VerifHalfConn {
+				rc, e := gmtls.VerifNewHalfConn(suite, key, iv, nil, true)
+				if e != nil {
+					return nil
+				}
+				// bring the receiver to sequence number 3
+				s2 := &ref.HalfState{Suite: suite, Key: key, IV: iv, On: true}
+				for q := 0; q < 3; q++ {
+					if _, ok, _ := rc.Decrypt(s2.Seal(23, []byte{byte(q)}, nil, 0)); !ok {
+						return nil
+					}
+				}
+				return rc
+			}
+			if rc := mk(); rc == nil {
+				rep.Violation(fmt.Sprintf("C12/gmtls-suite-table/receiver-rejects-reference-records/%04x", suite), "", w)
+			} else if got, ok, _ := rc.Decrypt(sealed); !ok || !bytes.Equal(got, pl) {
+				rep.Violation(fmt.Sprintf("C12/gmtls-suite-table/receiver-rejects-reference-records/%04x", suite), "record at sequence number 3", w)
+			}
+			for bit := 0; bit < 64; bit++ {
+				if !c.Thorough && (bit+i)%8 != 0 {
+					continue
+				}
+				rc := mk()
+				if rc == nil {
+					break
+				}
+				m := append([]byte{}, sealed...)
+				m[5+bit/8] ^= 1 << uint(bit%8)
+				if _, ok, _ := rc.Decrypt(m); ok {
+					rep.Violation(fmt.Sprintf("C12/gmtls-suite-table/explicit-nonce-bit-not-authenticated/%04x", suite), fmt.Sprintf("record accepted with bit %d of its explicit nonce flipped", bit), w)
+					break
+				}
+				rep.EvalN(fmt.Sprintf("gmtls-suite-table/%04x/explicit-nonce-bit", suite), 1, true)
+			}
 		}
 	}
 	// (7) buffer-reuse histories (serial): the same key / IV / A / P buffers are passed to consecutive calls while their
